@@ -2831,6 +2831,10 @@ class HTTPChannel(basic.LineReceiver, policies.TimeoutMixin):
 
         if not streaming:
             producer.startStreaming()
+            if self._waitingForTransport:
+                # The transport has paused us and will resume us exactly once:
+                # the new producer has to be waiting for that resumption too.
+                producer.pauseProducing()
 
     def unregisterProducer(self):
         """
